@@ -22,12 +22,50 @@ def cfg_name(cfg):
     return cfg[0] + ("/" + cfg[1] if cfg[1] else "")
 
 
+def _isolated(fn):
+    """fn() in a forked child: a crash inside a solver library takes the child down, not the worker (result: 'CRASH:...')."""
+    import pickle
+    r, w = os.pipe()
+    pid = os.fork()
+    if pid == 0:
+        code = 0
+        try:
+            os.close(r)
+            data = pickle.dumps(fn())
+            while data:
+                n = os.write(w, data)
+                data = data[n:]
+        except BaseException:  # noqa
+            code = 3
+        finally:
+            os._exit(code)
+    os.close(w)
+    chunks = []
+    while True:
+        b = os.read(r, 65536)
+        if not b:
+            break
+        chunks.append(b)
+    os.close(r)
+    _, status = os.waitpid(pid, 0)
+    if os.WIFSIGNALED(status):
+        return "CRASH:signal %d" % os.WTERMSIG(status)
+    if not chunks:
+        return "CRASH:exit %d" % os.WEXITSTATUS(status)
+    return pickle.loads(b"".join(chunks))
+
+
 def _worker(args):
     case, configs, kw = args
+    kw = dict(kw)
+    isolate = kw.pop("isolate_engines", False)
     out = {}
     for cfg in configs:
         try:
-            out[cfg_name(cfg)] = impl_infer(case, cfg[0], cfg[1] or "rc2", **kw)
+            if isolate and cfg[1] not in ("", "rc2", "z3"):
+                out[cfg_name(cfg)] = _isolated(lambda: impl_infer(case, cfg[0], cfg[1], **kw))
+            else:
+                out[cfg_name(cfg)] = impl_infer(case, cfg[0], cfg[1] or "rc2", **kw)
         except BaseException as e:  # noqa  (SystemExit etc. must not kill the pool)
             out[cfg_name(cfg)] = "EXC:%s:%s" % (type(e).__name__, str(e)[:120])
     return case["id"], out
